@@ -427,4 +427,15 @@ def _reset(ctx, R):
 
 _reset.rule_id = "C06.RESET"
 
-RULES = [sort_rule, chain_rule, gap_rule, opts_rule, stubpred, solve_rule, writeback, lastwriter, alllayers, _target, _reset, state_rule] + vpsc_pack.FEAS
+
+def _lz(mod, fn, rid):
+    def run(ctx, R):
+        import importlib
+        return getattr(importlib.import_module("sa.rules." + mod), fn)(ctx, R)
+
+    run.rule_id = rid
+    run.__name__ = fn
+    return run
+
+# a stub in the wrong layer is a second item of that layer at the label's own position: the chain rules of C04 are part of C01
+RULES = [sort_rule, chain_rule, gap_rule, opts_rule, stubpred, solve_rule, writeback, lastwriter, alllayers, _target, _reset, state_rule] + vpsc_pack.FEAS + [_lz("c04", "stubchain_instance", "C04.STUBCHAIN"), _lz("c04", "stubchain", "C04.STUBCHAIN-ALL-N")]
